@@ -84,6 +84,10 @@ func c12Decl(rt *rapid.T, pool *gen.Pool) (*refmodel.Decl, *big.Int) {
 			t.Name, t.Column = name, name
 			ev.Inputs = append(ev.Inputs, t)
 		}
+		if rapid.IntRange(0, 2).Draw(rt, "filteronly") == 0 {
+			// an input that is only filtered on, not stored (no column), in front of the stored ones
+			ev.Inputs = append(ev.Inputs, &refmodel.Type{Kind: refmodel.KUint, Bits: 64, Name: "fo"})
+		}
 		add(&refmodel.Type{Kind: refmodel.KAddress, Indexed: rapid.Bool().Draw(rt, "aidx")}, "a")
 		add(&refmodel.Type{Kind: refmodel.KUint, Bits: 256, Indexed: rapid.Bool().Draw(rt, "nidx")}, "n")
 		add(&refmodel.Type{Kind: refmodel.KString}, "s")
